@@ -47,7 +47,7 @@ def _elem_indices(d, e):
         if not l:
             raise Inadmissible("empty slice")
         return True, l
-    l = [z + d if z < 0 else z for z in e[1]]      # wave 5 (C04-N16): a negative entry counts from the end, as for numpy arrays
+    l = [z + d if z < 0 else z for z in e[1]]      # a negative entry counts from the end, as for numpy arrays (sptensor: since 6e4bb42)
     if not l or any(not 0 <= z < d for z in l):
         raise Inadmissible("index list out of range")
     return True, l
@@ -372,12 +372,23 @@ def _neg_list(key):
 
 
 def optrig_n16(st, op):
-    """wave 5, C04-N16: a region key (read or write) of a sptensor with a NEGATIVE entry inside an index list, or with an integer
-    below -extent of an existing mode: sptensor does not normalise / range-check it (tensor does, through numpy)"""
+    """(repaired, 6e4bb42: sptensor._wrap_region_entry) a region key (read or write) with a NEGATIVE entry inside an index list, or
+    with an integer below -extent of an existing mode: input class of the regression stream, never attributed"""
     if op[1][0] != "region":
         return False
     shape = st[0]
     return _neg_list(op[1]) or any(e[0] == "i" and k < len(shape) and e[1] < -shape[k] for k, e in enumerate(op[1][1]))
+
+
+def optrig_n17(st, op):
+    """wave 6, C04-N17 (residue of the repair 6e4bb42): a region WRITE of a sptensor through an index list that holds a NEGATIVE entry
+    AND an entry at or beyond the extent of the same mode (the write grows that mode; also: a mode that does not exist yet): tensor
+    counts the negative entry from the end AFTER growth (numpy sees the grown array), sptensor._wrap_region_entry from the end before"""
+    if not _is_set(op, ("region",)):
+        return False
+    shape = st[0]
+    return any(e[0] == "l" and e[1] and min(e[1]) < 0 and max(e[1]) >= (shape[k] if k < len(shape) else 0)
+               for k, e in enumerate(op[1][1]))
 
 
 def norm_list_ops(start, ops):
@@ -410,8 +421,9 @@ ALLCLASS = {"C04-N07": ("sparse", optrig_n07), "C04-N05": ("sparse", optrig_n05)
             "C04-N01": ("sparse", optrig_n01), "C04-N02": ("sparse", optrig_n02), "A-14": ("sparse", optrig_a14),
             "A-15": ("dense", optrig_a15), "A-16": ("dense", optrig_a16), "A-17": ("dense", optrig_a17),
             "C04-N10": ("sparse", optrig_n10), "C04-N11": ("sparse", optrig_n11), "C04-N12": ("sparse", optrig_n12),
-            "C04-N13": ("sparse", optrig_n13), "C04-N15": ("sparse", optrig_n15), "C04-N16": ("sparse", optrig_n16)}
-OPEN_IDS = ("A-16", "C04-N04", "C04-N16")        # wave 4: C04-N11 / N14 / N15 are repaired in /repo (1fdba16, 8f8b86e, 274a39e): ordinary inputs
+            "C04-N13": ("sparse", optrig_n13), "C04-N15": ("sparse", optrig_n15), "C04-N16": ("sparse", optrig_n16),
+            "C04-N17": ("sparse", optrig_n17)}
+OPEN_IDS = ("A-16", "C04-N04", "C04-N17")        # wave 4: C04-N11 / N14 / N15 repaired in /repo (1fdba16, 8f8b86e, 274a39e), wave 6: C04-N16 (6e4bb42): ordinary inputs
 OPTRIG = {fid: ALLCLASS[fid] for fid in OPEN_IDS}
 FIXED_CLASSES = {fid: v for fid, v in ALLCLASS.items() if fid not in OPEN_IDS}
 
